@@ -1,6 +1,344 @@
-From Coq Require Import List ZArith NArith Bool Lia.
-From Orso Require Import Base.Civil Gen.C08_Tables Model.C08 Proofs.C08_Epoch Proofs.C08_Str Proofs.C08_Utf8.
+(* C08 - top-level lemmas about parse_iso (the statements Props/C08.v exports). *)
+From Coq Require Import List ZArith NArith Bool Lia ZifyBool.
+From Orso Require Import Base.Civil Gen.C08_Tables Model.C08.
+From Orso Require Import Proofs.C08_Epoch Proofs.C08_Str Proofs.C08_Utf8 Proofs.C08_Strip Proofs.C08_Core Proofs.C08_Render.
 Import ListNotations.
 Open Scope Z_scope.
-Lemma stub_other : parse_iso VOther = Ok None.
+
+(* ---------- the handler list read from the source covers what the body can raise ---------- *)
+Lemma caught_three : caught ValueError = true /\ caught OverflowError = true /\ caught OSError = true.
+Proof. vm_compute. repeat split; reflexivity. Qed.
+
+Definition body_exn (e : exn) : Prop := e = ValueError \/ e = OverflowError \/ e = OSError.
+
+Lemma epoch_branch_raises n e : epoch_branch n = Raise e -> body_exn e.
+Proof.
+  unfold epoch_branch. destruct (fromtimestamp_utc n) as [t|e'] eqn:E; cbn [bind]; [discriminate|].
+  intros [= <-]. now apply fromtimestamp_raises in E.
+Qed.
+
+Lemma str_branch_raises s e : str_branch s = Raise e -> body_exn e.
+Proof.
+  unfold str_branch. destruct (str_isdigit s).
+  - destruct (py_int s) as [n|e'] eqn:E; cbn [bind].
+    + apply epoch_branch_raises.
+    + intros [= <-]. apply py_int_raises in E. subst. now left.
+  - intros H. apply only_ve_parse_text in H. subst. now left.
+Qed.
+
+Lemma body_raises x e : parse_iso_body x = Raise e -> body_exn e.
+Proof.
+  destruct x as [n|n|f|f|s|b|y m d|y m d h mi s us|a|r|]; cbn [parse_iso_body]; try discriminate.
+  - apply epoch_branch_raises.
+  - apply epoch_branch_raises.
+  - destruct f as [| |m e']; cbn [int_of_float bind]; try (intros [= <-]; unfold body_exn; tauto). apply epoch_branch_raises.
+  - destruct f as [| |m e']; cbn [int_of_float bind]; try (intros [= <-]; unfold body_exn; tauto). apply epoch_branch_raises.
+  - apply str_branch_raises.
+  - destruct (utf8_decode b); [apply str_branch_raises|intros [= <-]; now left].
+  - destruct a; try discriminate. apply epoch_branch_raises.
+Qed.
+
+(* totality: parse_iso never raises *)
+Lemma parse_iso_total x : exists r, parse_iso x = Ok r.
+Proof.
+  unfold parse_iso. destruct (parse_iso_body x) as [r|e] eqn:E; [now exists r|].
+  apply body_raises in E. destruct caught_three as (H1 & H2 & H3).
+  destruct E as [-> | [-> | ->]]; rewrite ?H1, ?H2, ?H3; now exists None.
+Qed.
+
+Lemma parse_iso_of_body_ok x r : parse_iso_body x = Ok r -> parse_iso x = Ok r.
+Proof. unfold parse_iso. now intros ->. Qed.
+
+Lemma parse_iso_of_body_raise x e : parse_iso_body x = Raise e -> body_exn e -> parse_iso x = Ok None.
+Proof.
+  unfold parse_iso. intros -> H. destruct caught_three as (H1 & H2 & H3).
+  destruct H as [-> | [-> | ->]]; now rewrite ?H1, ?H2, ?H3.
+Qed.
+
+(* ---------- text and bytes ---------- *)
+Lemma parse_iso_bytes s : forallb scalar s = true -> parse_iso (VBytes (utf8_encode s)) = parse_iso (VStr s).
+Proof. intros H. unfold parse_iso. cbn [parse_iso_body]. now rewrite utf8_decode_encode. Qed.
+
+Lemma parse_iso_bad_bytes b : utf8_decode b = None -> parse_iso (VBytes b) = Ok None.
+Proof. intros H. apply (parse_iso_of_body_raise _ ValueError); [cbn [parse_iso_body]; now rewrite H|now left]. Qed.
+
+Definition ascii7 (c : N) : bool := (c <? 128)%N.
+
+Lemma ascii7_scalar s : forallb ascii7 s = true -> forallb scalar s = true.
+Proof.
+  intros H. apply forallb_forall. intros x Hx. rewrite forallb_forall in H. specialize (H x Hx).
+  unfold ascii7, scalar in *. lia.
+Qed.
+
+Lemma ascii7_dig k : 0 <= k <= 9 -> ascii7 (dig k) = true.
+Proof. unfold ascii7, dig. lia. Qed.
+
+Lemma ascii7_suffix sf : valid_suffix sf = true -> forallb ascii7 (render_suffix sf) = true.
+Proof.
+  Local Ltac Zify.zify_post_hook ::= Z.to_euclidean_division_equations.
+  destruct sf as [| |[] oh om|[] oh om]; cbn [valid_suffix render_suffix d2 app forallb]; intros H; try reflexivity;
+  rewrite !ascii7_dig by lia; reflexivity.
+Qed.
+
+Lemma ascii7_frac fr : forallb ascii_digit fr = true -> forallb ascii7 (render_frac fr) = true.
+Proof.
+  intros H. destruct fr as [|x fr]; [reflexivity|]. unfold render_frac.
+  change (forallb ascii7 (cDot :: x :: fr)) with (ascii7 cDot && forallb ascii7 (x :: fr)).
+  change (ascii7 cDot) with true. cbn [andb]. apply forallb_forall. intros z Hz.
+  rewrite forallb_forall in H. specialize (H z Hz). unfold ascii7, ascii_digit in *. lia.
+Qed.
+
+Lemma ascii7_sep sep : is_sep sep = true -> ascii7 sep = true.
+Proof. unfold is_sep, ascii7, cT, cSp. lia. Qed.
+
+Section Ascii.
+Local Ltac Zify.zify_post_hook ::= Z.to_euclidean_division_equations.
+
+Lemma ascii7_date y m d : valid_date y m d = true -> forallb ascii7 (render_date y m d) = true.
+Proof.
+  intros Hd. pose proof (valid_date_bounds y m d Hd) as (By & Bm & Bd).
+  unfold render_date, d4, d2. cbn [app forallb]. rewrite !ascii7_dig by lia. reflexivity.
+Qed.
+
+Lemma ascii7_d2 n : 0 <= n < 100 -> forallb ascii7 (d2 n) = true.
+Proof. intros H. unfold d2. cbn [forallb]. rewrite !ascii7_dig by lia. reflexivity. Qed.
+End Ascii.
+
+Lemma ascii7_seconds y m d h mi s sep fr sf :
+  valid_date y m d = true -> valid_time h mi s = true -> is_sep sep = true ->
+  forallb ascii_digit fr = true -> valid_suffix sf = true ->
+  forallb ascii7 (render_seconds y m d h mi s sep fr sf) = true.
+Proof.
+  intros Hd Ht Hsep Hfr Hsf. unfold valid_time in Ht. unfold render_seconds.
+  rewrite !forallb_app. rewrite ascii7_date, ascii7_suffix, ascii7_frac, !ascii7_d2 by (try assumption; lia).
+  cbn [forallb]. rewrite ascii7_sep by assumption. reflexivity.
+Qed.
+
+Lemma ascii7_minutes y m d h mi sep sf :
+  valid_date y m d = true -> valid_time h mi 0 = true -> is_sep sep = true -> valid_suffix sf = true ->
+  forallb ascii7 (render_minutes y m d h mi sep sf) = true.
+Proof.
+  intros Hd Ht Hsep Hsf. unfold valid_time in Ht. unfold render_minutes.
+  rewrite !forallb_app. rewrite ascii7_date, ascii7_suffix, !ascii7_d2 by (try assumption; lia).
+  cbn [forallb]. rewrite ascii7_sep by assumption. reflexivity.
+Qed.
+
+Lemma ascii7_dateonly y m d sf :
+  valid_date y m d = true -> valid_suffix sf = true -> forallb ascii7 (render_dateonly y m d sf) = true.
+Proof.
+  intros Hd Hsf. unfold render_dateonly. rewrite forallb_app, ascii7_date, ascii7_suffix by assumption. reflexivity.
+Qed.
+
+(* both encodings of a text whose string branch succeeds *)
+Lemma text_and_bytes s r : forallb ascii7 s = true -> str_branch s = Ok r ->
+  parse_iso (VStr s) = Ok r /\ parse_iso (VBytes (utf8_encode s)) = Ok r.
+Proof.
+  intros Ha Hs. assert (parse_iso (VStr s) = Ok r) as H by (apply parse_iso_of_body_ok; exact Hs).
+  split; [exact H|]. rewrite parse_iso_bytes by now apply ascii7_scalar. exact H.
+Qed.
+
+(* ---------- the round trips ---------- *)
+Lemma frac6_len fr : (length fr <= 6)%nat -> zlen (render_frac fr) <= 7.
+Proof. intros H. rewrite zlen_render_frac. destruct fr; [lia|]. unfold zlen in *. lia. Qed.
+
+Lemma seconds_len y m d h mi s sep fr sf :
+  zlen (render_seconds y m d h mi s sep fr sf) = 19 + zlen (render_frac fr) + zlen (render_suffix sf).
+Proof.
+  unfold render_seconds, render_date. rewrite !zlen_app. change (zlen (d4 y)) with 4. change (zlen (d2 m)) with 2.
+  change (zlen (d2 d)) with 2. change (zlen (d2 h)) with 2. change (zlen (d2 mi)) with 2. change (zlen (d2 s)) with 2.
+  change (zlen [cDash]) with 1. change (zlen [sep]) with 1. change (zlen [cColon]) with 1. lia.
+Qed.
+
+Lemma iso_seconds_gen y m d h mi s sep fr sf :
+  valid_date y m d = true -> valid_time h mi s = true -> is_sep sep = true ->
+  forallb ascii_digit fr = true -> valid_suffix sf = true ->
+  zlen (render_seconds y m d h mi s sep fr sf) <= 33 ->
+  (match sf with SPlus _ _ _ => zlen (render_frac fr) <= 9 | _ => True end) ->
+  let text := render_seconds y m d h mi s sep fr sf in
+  parse_iso (VStr text) = Ok (Some (y, m, d, h, mi, s, 0)) /\
+  parse_iso (VBytes (utf8_encode text)) = Ok (Some (y, m, d, h, mi, s, 0)).
+Proof.
+  intros Hd Ht Hsep Hfr Hsf H33 Hp text. apply text_and_bytes.
+  - now apply ascii7_seconds.
+  - now apply seconds_roundtrip_gen.
+Qed.
+
+Lemma iso_seconds y m d h mi s sep fr sf :
+  valid_date y m d = true -> valid_time h mi s = true -> is_sep sep = true ->
+  forallb ascii_digit fr = true -> (length fr <= 6)%nat -> valid_suffix sf = true ->
+  let text := render_seconds y m d h mi s sep fr sf in
+  parse_iso (VStr text) = Ok (Some (y, m, d, h, mi, s, 0)) /\
+  parse_iso (VBytes (utf8_encode text)) = Ok (Some (y, m, d, h, mi, s, 0)).
+Proof.
+  intros Hd Ht Hsep Hfr Hlen Hsf. apply iso_seconds_gen; try assumption.
+  - rewrite seconds_len. pose proof (frac6_len fr Hlen). rewrite zlen_render_suffix.
+    destruct sf as [| |[] ? ?|[] ? ?]; lia.
+  - pose proof (frac6_len fr Hlen). destruct sf; try exact I. lia.
+Qed.
+
+Lemma iso_minutes y m d h mi sep sf :
+  valid_date y m d = true -> valid_time h mi 0 = true -> is_sep sep = true -> valid_suffix sf = true ->
+  let text := render_minutes y m d h mi sep sf in
+  parse_iso (VStr text) = Ok (Some (y, m, d, h, mi, 0, 0)) /\
+  parse_iso (VBytes (utf8_encode text)) = Ok (Some (y, m, d, h, mi, 0, 0)).
+Proof.
+  intros Hd Ht Hsep Hsf text. apply text_and_bytes; [now apply ascii7_minutes|now apply minutes_roundtrip].
+Qed.
+
+Lemma iso_dateonly y m d sf :
+  valid_date y m d = true -> valid_suffix sf = true -> not_minus sf = true ->
+  let text := render_dateonly y m d sf in
+  parse_iso (VStr text) = Ok (Some (y, m, d, 0, 0, 0, 0)) /\
+  parse_iso (VBytes (utf8_encode text)) = Ok (Some (y, m, d, 0, 0, 0, 0)).
+Proof.
+  intros Hd Hsf Hnm text. apply text_and_bytes; [now apply ascii7_dateonly|now apply dateonly_roundtrip].
+Qed.
+
+(* beyond the length window nothing parses *)
+Lemma too_long_none s : 33 < zlen s -> str_isdigit s = false -> parse_iso (VStr s) = Ok None.
+Proof.
+  intros Hl Hd. apply parse_iso_of_body_ok. cbn [parse_iso_body]. unfold str_branch, parse_text. rewrite Hd.
+  replace ((10 <=? zlen s) && (zlen s <=? 33)) with false by lia. reflexivity.
+Qed.
+Lemma too_short_none s : zlen s < 10 -> str_isdigit s = false -> parse_iso (VStr s) = Ok None.
+Proof.
+  intros Hl Hd. apply parse_iso_of_body_ok. cbn [parse_iso_body]. unfold str_branch, parse_text. rewrite Hd.
+  replace ((10 <=? zlen s) && (zlen s <=? 33)) with false by lia. reflexivity.
+Qed.
+
+(* ---------- epoch ---------- *)
+Lemma epoch_in_range n : min_epoch <= n <= max_epoch ->
+  exists y m d h mi s,
+    parse_iso (VInt n) = Ok (Some (y, m, d, h, mi, s, 0)) /\
+    valid_date y m d = true /\ valid_time h mi s = true /\ epoch_of (y, m, d, h, mi, s, 0) = n.
+Proof.
+  intros H. destruct (fromtimestamp_in_range n H) as (y & m & d & h & mi & s & Hf & Hv).
+  exists y, m, d, h, mi, s. split; [|exact Hv]. apply parse_iso_of_body_ok. cbn [parse_iso_body].
+  unfold epoch_branch. now rewrite Hf.
+Qed.
+
+Lemma epoch_out_of_range n : n < min_epoch \/ max_epoch < n -> parse_iso (VInt n) = Ok None.
+Proof.
+  intros H. destruct (fromtimestamp_out_of_range n H) as (e & He & Hc).
+  apply (parse_iso_of_body_raise _ e); [|exact Hc]. cbn [parse_iso_body]. unfold epoch_branch. now rewrite He.
+Qed.
+
+Lemma np_int64_same n : parse_iso (VNpInt64 n) = parse_iso (VInt n).
 Proof. reflexivity. Qed.
+
+(* a string of ASCII digits is the integer it spells *)
+Lemma digit_string s : s <> [] -> forallb ascii_digit s = true -> zlen s <= int_max_str_digits ->
+  parse_iso (VStr s) = parse_iso (VInt (digits_value s)) /\
+  parse_iso (VBytes (utf8_encode s)) = parse_iso (VInt (digits_value s)).
+Proof.
+  intros Hne Hd Hl.
+  assert (parse_iso (VStr s) = parse_iso (VInt (digits_value s))) as H.
+  { unfold parse_iso. cbn [parse_iso_body]. unfold str_branch.
+    rewrite str_isdigit_ascii, py_int_digits by assumption. reflexivity. }
+  split; [exact H|]. rewrite parse_iso_bytes; [exact H|].
+  apply forallb_forall. intros x Hx. rewrite forallb_forall in Hd. specialize (Hd x Hx).
+  unfold scalar, ascii_digit in *. lia.
+Qed.
+
+Lemma digit_string_too_long s : forallb ascii_digit s = true -> int_max_str_digits < zlen s ->
+  parse_iso (VStr s) = Ok None.
+Proof.
+  intros Hd Hl. destruct s as [|c s]; [rewrite zlen_nil in Hl; vm_compute in Hl; discriminate|].
+  apply (parse_iso_of_body_raise _ ValueError); [|now left]. cbn [parse_iso_body]. unfold str_branch.
+  rewrite str_isdigit_ascii by (assumption || discriminate).
+  unfold py_int. pose proof (int_scan_digits (c :: s) 0 Hd) as Hscan.
+  cbn [forallb] in Hd. apply andb_true_iff in Hd. destruct Hd as [Hc Hs].
+  cbn [map] in *. rewrite classify_digit in * by assumption. cbn [skip_space]. rewrite Hscan. cbn [skip_space].
+  replace (0 + zlen (c :: s) >? int_max_str_digits) with true by lia. reflexivity.
+Qed.
+
+(* floats: NaN and infinities give None, finite values are truncated by int() *)
+Lemma float_nan : parse_iso (VFloat FNan) = Ok None /\ parse_iso (VNpFloat64 FNan) = Ok None.
+Proof. split; apply (parse_iso_of_body_raise _ ValueError); (reflexivity || now left). Qed.
+Lemma float_inf : parse_iso (VFloat FInf) = Ok None /\ parse_iso (VNpFloat64 FInf) = Ok None.
+Proof. split; apply (parse_iso_of_body_raise _ OverflowError); (reflexivity || (right; now left)). Qed.
+Lemma float_finite m e :
+  parse_iso (VFloat (FFin m e)) = parse_iso (VInt (trunc_of m e)) /\
+  parse_iso (VNpFloat64 (FFin m e)) = parse_iso (VInt (trunc_of m e)).
+Proof. split; reflexivity. Qed.
+
+(* ---------- native inputs, other inputs, casts ---------- *)
+Lemma native_date y m d : parse_iso (VDate y m d) = Ok (Some (y, m, d, 0, 0, 0, 0)).
+Proof. reflexivity. Qed.
+Lemma native_datetime y m d h mi s us : parse_iso (VDatetime y m d h mi s us) = Ok (Some (y, m, d, h, mi, s, 0)).
+Proof. reflexivity. Qed.
+Lemma other_none : parse_iso VOther = Ok None.
+Proof. reflexivity. Qed.
+
+Lemma casts_agree x :
+  (forall t, parse_iso x = Ok (Some t) ->
+     cast_timestamp x = Ok t /\ cast_date x = Ok (date_of t) /\ cast_time x = Ok (time_of t)) /\
+  (parse_iso x = Ok None ->
+     cast_timestamp x = Raise ValueError /\ cast_date x = Raise ValueError /\ cast_time x = Raise ValueError).
+Proof.
+  unfold cast_timestamp, cast_date, cast_time, dateval_of, timeval_of, timestamp_of.
+  split; [intros t H|intros H]; rewrite H; cbn [bind]; repeat split; reflexivity.
+Qed.
+
+(* ---------- a date or nothing ---------- *)
+Lemma valid_dt_epoch n t : fromtimestamp_utc n = Ok t -> valid_dt t = true.
+Proof.
+  intros H. destruct (Z_le_gt_dec min_epoch n) as [H1|H1]; [destruct (Z_le_gt_dec n max_epoch) as [H2|H2]|].
+  - destruct (fromtimestamp_in_range n (conj H1 H2)) as (y & m & d & h & mi & s & Hf & Hd & Ht & _).
+    rewrite Hf in H. injection H as <-. unfold valid_dt. now rewrite Hd, Ht.
+  - destruct (fromtimestamp_out_of_range n) as (e & He & _); [lia|congruence].
+  - destruct (fromtimestamp_out_of_range n) as (e & He & _); [lia|congruence].
+Qed.
+
+Lemma string_result s t : parse_iso (VStr s) = Ok (Some t) ->
+  valid_dt t = true /\
+  (str_isdigit s = true \/
+   (10 <= zlen s <= 33 /\ exists v, strip_suffix s = Ok (Some v) /\ shape_ok v = true)).
+Proof.
+  unfold parse_iso. cbn [parse_iso_body]. destruct (str_branch s) as [r|e] eqn:E.
+  2:{ destruct (caught e); discriminate. }
+  intros [= ->]. unfold str_branch in E. destruct (str_isdigit s) eqn:Ed.
+  - split; [|now left]. destruct (py_int s) as [n|e]; cbn [bind] in E; [|discriminate].
+    unfold epoch_branch in E. destruct (fromtimestamp_utc n) as [t'|e] eqn:Ef; cbn [bind] in E; [|discriminate].
+    injection E as <-. now apply valid_dt_epoch in Ef.
+  - apply parse_text_some in E. destruct E as (Hl & v & Hs & Hsh & Hv). split; [exact Hv|]. right. split; [exact Hl|]. now exists v.
+Qed.
+
+(* contrapositive, as DESIGN states it: failing the positional shape test gives None *)
+Lemma shape_fail_none s :
+  str_isdigit s = false ->
+  (forall v, strip_suffix s = Ok (Some v) -> shape_ok v = false) ->
+  parse_iso (VStr s) = Ok None.
+Proof.
+  intros Hd Hsh. destruct (parse_iso_total (VStr s)) as (r & Hr). destruct r as [t|]; [|exact Hr].
+  apply string_result in Hr. destruct Hr as (_ & [H|(_ & v & Hs & Hv)]); [congruence|].
+  rewrite (Hsh v Hs) in Hv. discriminate.
+Qed.
+
+Lemma float_nonneg_floor m e : 0 <= m -> trunc_of m e = floor_of m e.
+Proof.
+  intros H. unfold trunc_of, floor_of. destruct (0 <=? e) eqn:E; [reflexivity|].
+  apply Z.quot_div_nonneg; [exact H|]. apply Z.pow_pos_nonneg; lia.
+Qed.
+
+(* ---------- candidate findings and observations, by computation ---------- *)
+(* F-C08-3: an instant before 1970 with a fractional second is rounded up, not truncated *)
+Lemma float_floor_refuted :
+  exists m e, m < 0 /\ e < 0 /\ parse_iso (VFloat (FFin m e)) <> parse_iso (VInt (floor_of m e)).
+Proof. exists (-3), (-1). split; [lia|]. split; [lia|]. vm_compute. discriminate. Qed.
+
+Lemma np_ns_floor_refuted :
+  exists n, parse_iso (VNpDatetime64 (AsInt n)) <> parse_iso (VInt (n / 1000000000)).
+Proof. exists (-1500000000). vm_compute. discriminate. Qed.
+
+Lemma np_datetime64_units :
+  parse_iso (VNpDatetime64 AsNone) = Ok None /\
+  (forall y m d, parse_iso (VNpDatetime64 (AsDate y m d)) = Ok (Some (y, m, d, 0, 0, 0, 0))) /\
+  (forall y m d h mi s us, parse_iso (VNpDatetime64 (AsDatetime y m d h mi s us)) = Ok (Some (y, m, d, h, mi, s, 0))).
+Proof. repeat split. Qed.
+
+(* F-C08-4: whatever to_pydatetime() returns is passed through, sub-second part included *)
+Lemma topy_passthrough r : parse_iso (VToPy r) = Ok r.
+Proof. reflexivity. Qed.
+Lemma topy_refuted : exists t, valid_dt t = false /\ parse_iso (VToPy (Some t)) = Ok (Some t).
+Proof. exists (2020, 1, 1, 10, 0, 0, 500000). split; reflexivity. Qed.
